@@ -28,7 +28,7 @@ func printManifest() {
 		allIDs = append(allIDs, fmt.Sprintf("C%02d", i))
 	}
 	var checks []mCheck
-	var na []map[string]string
+	na := []map[string]string{}
 	var served []string
 	for _, id := range allIDs {
 		p := properties[id]
